@@ -55,6 +55,7 @@ PlanMethods   == {"planSucceeded", "planFailed"}
 LifeMethods   == {"enter", "reenter", "exit"}
 ReportMethods == {"select", "rank", "utility"}
 FullMethods   == GuardMethods \cup UpdateMethods \cup ReactMethods \cup PlanMethods   \* FullControl and up
+AllMethods    == FullMethods \cup LifeMethods \cup ReportMethods \cup {"query"}
 Base(me)      == IF Len(me) > 2 /\ SubSeq(me, 1, 2) = "i_" THEN SubSeq(me, 3, Len(me)) ELSE me
 
 ---------------------------------------------------------------------------
@@ -91,6 +92,8 @@ Blank ==
       rv    |-> TSNone,                        \* non-boolean result of the last operator
       pend  |-> <<>>, cur |-> <<>>,            \* pendingTransitions, currentTransitions
       draws |-> 0,                             \* generator outputs consumed in this call
+      lg    |-> FALSE,                         \* persistent: a logger is attached (core.logger # nullptr)
+      log   |-> <<>>,                          \* what the attached logger was told in this call, in order
       plog  |-> <<>>,                          \* plan API calls of this call: <<"a", 0|1>> append (result), <<"c", n>> clear (of n tasks), <<"r", 0|1>> remove, <<"w", tasks>> sweep
       rounds |-> <<>>,                         \* per round: <<"approved"|"vetoed"|"noop", requests>>
       over  |-> 0,                             \* requests rejected because the queue was full
@@ -198,12 +201,33 @@ TotalTasks(m) == LET RECURSIVE S(_)
 
 RegionStates(r) == Subtree(RegionHead(r))
 
-\* FullControlBaseT::changeTo & co  (control_3.inl)
+\* ---- the logger (features/logger_interface.hpp; macros_on.hpp HFSM2_LOG_*) ----------------
+Has(f) == f \in Cfg.features
+HasLog == Has("LOG_INTERFACE") \/ Has("VERBOSE_DEBUG_LOG")       \* verbose logging switches the interface on
+Log(m, rec) == IF m.lg /\ HasLog THEN [m EXCEPT !.log = Append(@, rec)] ELSE m
+\* does state s define method me itself?  (anonymous heads define nothing; Cfg.ovr lists what a user state defines;
+\* states in Cfg.defplan leave planSucceeded / planFailed to A_<>'s default)
+Overridden(s, me) == /\ HasUser(s)
+                     /\ Base(me) \in Cfg.ovr[s]
+                     /\ ~(Base(me) \in PlanMethods /\ s \in Cfg.defplan)
+\* HFSM2_LOG_STATE_METHOD : verbose logging reports every wrapper that runs, interface logging only methods the
+\* state overrides (S_::log overloads on the member pointer's class)
+\* D29 (open finding): deepPreReact / deepReact / deepPostReact / deepQuery cast the member pointer to `(Head::*)` before
+\* handing it to S_::log, which hides that the method was inherited from the empty base: under interface logging these
+\* four are reported for every user state they pass through, defined or not
+LogMethod(m, s, me) ==
+    IF Has("VERBOSE_DEBUG_LOG") \/ Overridden(s, me) THEN Log(m, <<"m", s, me>>)
+    ELSE IF /\ HasUser(s) /\ Base(me) \in ReactMethods \cup {"query"} /\ "InterfaceLogReactFamily" \in m.dev /\ m.lg /\ HasLog
+         THEN [Log(m, <<"m", s, me>>) EXCEPT !.notes = @ \cup {"D29"}]
+    ELSE m
+
+\* FullControlBaseT::changeTo & co  (control_3.inl) : the transition is reported (and an outer transition noted) even
+\* when the full queue drops the request
 CtlRequest(m, k, d, p) ==
-    IF Len(m.q) >= QueueCapacity THEN [m EXCEPT !.over = @ + 1]
-    ELSE IF k = "schedule" THEN [m EXCEPT !.q = Append(@, <<m.org, d, k, p>>)]
-    ELSE [m EXCEPT !.q = Append(@, <<m.org, d, k, p>>),
-                   !.ts.ot = @ \/ (d < m.rs \/ m.rs + m.rz <= d)]
+    LET ot == IF k = "schedule" THEN m.ts.ot ELSE m.ts.ot \/ (d < m.rs \/ m.rs + m.rz <= d)
+        m1 == IF Len(m.q) >= QueueCapacity THEN [m EXCEPT !.over = @ + 1, !.ts.ot = ot]
+              ELSE [m EXCEPT !.q = Append(@, <<m.org, d, k, p>>), !.ts.ot = ot]
+    IN Log(m1, <<"t", m.org, k, d>>)
 
 MaskBit(mask, i) == (mask \div (2 ^ (i - 1))) % 2 = 1
 SelectSeqIdx(seq, Keep(_)) ==
@@ -220,11 +244,11 @@ PlanClearStatuses(m, r) ==
 ApplyOp(m, me, op) ==
     LET b == Base(me)  t == op[1] IN
     CASE t = "req" /\ b \in FullMethods        -> CtlRequest(m, op[2], op[3], op[4])
-      [] t = "cancel" /\ b \in GuardMethods    -> [m EXCEPT !.cancelled = TRUE]
+      [] t = "cancel" /\ b \in GuardMethods    -> Log([m EXCEPT !.cancelled = TRUE], <<"cp", m.org>>)
       [] t = "succeed" /\ b \in FullMethods    ->
-            IF op[2] > 1 THEN [m EXCEPT !.ts.r = 1, !.succ = @ \cup {op[2]}] ELSE m
+            IF op[2] > 1 THEN Log([m EXCEPT !.ts.r = 1, !.succ = @ \cup {op[2]}], <<"ts", m.rs, op[2], "succeeded">>) ELSE m
       [] t = "fail" /\ b \in FullMethods       ->
-            IF op[2] > 1 THEN [m EXCEPT !.ts.r = 2, !.fail = @ \cup {op[2]}] ELSE m
+            IF op[2] > 1 THEN Log([m EXCEPT !.ts.r = 2, !.fail = @ \cup {op[2]}], <<"ts", m.rs, op[2], "failed">>) ELSE m
       [] t = "consume" /\ b \in ReactMethods \cup {"query"} -> [m EXCEPT !.consumed = TRUE]
       [] t = "plan_append" /\ b \in FullMethods \cup LifeMethods ->
             \* <<"plan_append", region, origin, dest, kind, payload>>
@@ -260,17 +284,20 @@ HasInj(s) == s \in Cfg.inj
 \* S_::deepX : injected (StateT<...>) handlers and the state's own, in the order of state_1.inl
 InjFirst(me) == me \in {"entryGuard", "enter", "reenter", "preUpdate", "update", "preReact", "react", "exitGuard"}
 Fire(m, s, me) ==
-    IF ~HasUser(s) THEN m
-    ELSE IF ~HasInj(s) THEN Fire1(m, s, me)
-    ELSE IF InjFirst(me) THEN Fire1(Fire1(m, s, "i_" \o me), s, me)
-    ELSE Fire1(Fire1(m, s, me), s, "i_" \o me)
+    LET m0 == LogMethod(m, s, me) IN
+    IF ~HasUser(s) THEN m0
+    ELSE IF ~HasInj(s) THEN (IF Overridden(s, me) THEN Fire1(m0, s, me) ELSE m0)
+    ELSE IF InjFirst(me) THEN Fire1(Fire1(m0, s, "i_" \o me), s, me)
+    ELSE Fire1(Fire1(m0, s, me), s, "i_" \o me)
 
 \* Head::select / rank / utility (const Control&): an event, no ops
-FireReport(m, s, me) == IF ~HasUser(s) THEN m ELSE [m EXCEPT !.ev = Append(@, Event(m, s, me))]
-\* anonymous heads (S_<.., EmptyT<>> in state_2.inl) answer like EmptyT: select 0 (first), rank 0, utility 1
-SelectOf(m, s) == IF HasUser(s) THEN m.sc.sel[s]  ELSE 1
-RankOf(m, s)   == IF HasUser(s) THEN m.sc.rank[s] ELSE 0
-UtilOf(m, s)   == IF HasUser(s) THEN m.sc.util[s] ELSE ROne
+FireReport(m, s, me) == LET m0 == LogMethod(m, s, me) IN
+                        IF ~Overridden(s, me) THEN m0 ELSE [m0 EXCEPT !.ev = Append(@, Event(m, s, me))]
+\* anonymous heads (S_<.., EmptyT<>> in state_2.inl) and states that do not define the method answer like A_<>:
+\* select 0 (first), rank 0, utility 1
+SelectOf(m, s) == IF Overridden(s, "select")  THEN m.sc.sel[s]  ELSE 1
+RankOf(m, s)   == IF Overridden(s, "rank")    THEN m.sc.rank[s] ELSE 0
+UtilOf(m, s)   == IF Overridden(s, "utility") THEN m.sc.util[s] ELSE ROne
 
 \* PlanControlT::Region (ScopedRegion) : enter / leave
 ScopeIn(m, s)        == [m EXCEPT !.rid = St[s].region, !.rs = s, !.rz = St[s].size]
@@ -398,15 +425,17 @@ WideUtils(m, s, i, ranks, top, acc, kind) ==
 
 \* C_::resolveRandom
 NextRandom(m) == IF m.draws + 1 <= Len(m.sc.rng) THEN m.sc.rng[m.draws + 1] ELSE RZero
-ResolveRandom(m, utils, sum, ranks, top) ==
+ResolveRandom(m, s, utils, sum, ranks, top) ==
     LET random == NextRandom(m)
         RECURSIVE Walk(_, _, _)
-        Walk(i, cursor, last) ==
-            IF i > Len(utils) THEN last          \* fell off the end: last eligible prong (see D3)
+        Walk(i, cursor, last) ==             \* <<prong, found>>
+            IF i > Len(utils) THEN <<last, FALSE>>   \* fell off the end: last eligible prong (see D3), nothing reported
             ELSE IF ranks[i] # top THEN Walk(i + 1, cursor, last)
             ELSE IF RGe(cursor, utils[i]) THEN Walk(i + 1, RSub(cursor, utils[i]), i)
-            ELSE i
-    IN  [m EXCEPT !.draws = @ + 1, !.rv = Walk(1, RMul(random, sum), 0)]
+            ELSE <<i, TRUE>>
+        w  == Walk(1, RMul(random, sum), 0)
+        m1 == [m EXCEPT !.draws = @ + 1, !.rv = w[1]]
+    IN  IF w[2] THEN Log(m1, <<"rn", s, w[1], random>>) ELSE m1
 
 \* sum of sub-state reports of an orthogonal region (OS_::wideReportChange & co)
 RECURSIVE WideSumO(_, _, _, _, _)
@@ -425,7 +454,8 @@ DeepReportChange(m, s) ==
       [] St[s].kind = "O" ->
             LET mh == FireReport(m, s, "utility")
                 ms == WideSumO(mh, s, 1, RZero, "change")
-            IN [ms EXCEPT !.rv = [u |-> RMul(UtilOf(m, s), RDivI(ms.rv, St[s].width)), p |-> St[s].prong]]
+                ml == Log(ms, <<"ut", s, 0, RDivI(ms.rv, St[s].width)>>)
+            IN [ml EXCEPT !.rv = [u |-> RMul(UtilOf(m, s), RDivI(ms.rv, St[s].width)), p |-> St[s].prong]]
       [] St[s].kind = "C" ->
             LET c == St[s].compo  sg == St[s].strat IN
             CASE sg = "Composite" ->
@@ -444,12 +474,12 @@ DeepReportChange(m, s) ==
                     LET mh == FireReport(m, s, "utility")
                         ms == WideBest(mh, s, 1, [u |-> RZero, p |-> 0], "change")
                         b  == ms.rv
-                    IN [ms EXCEPT !.req[c] = b.p, !.rv = [u |-> RMul(UtilOf(m, s), b.u), p |-> St[s].prong]]
+                    IN [Log(ms, <<"ut", s, b.p, b.u>>) EXCEPT !.req[c] = b.p, !.rv = [u |-> RMul(UtilOf(m, s), b.u), p |-> St[s].prong]]
               [] sg = "Random" ->
                     LET mh == FireReport(m, s, "utility")
                         mr == WideRanks(mh, s, 1, <<>>)
                         mu == WideUtils(mr, s, 1, mr.rv.ranks, mr.rv.top, <<>>, "change")
-                        mx == ResolveRandom(mu, mu.rv.utils, mu.rv.sum, mr.rv.ranks, mr.rv.top)
+                        mx == ResolveRandom(mu, s, mu.rv.utils, mu.rv.sum, mr.rv.ranks, mr.rv.top)
                     IN [mx EXCEPT !.req[c] = mx.rv,
                                   !.rv = [u |-> RMul(UtilOf(m, s), mu.rv.utils[mx.rv]), p |-> St[s].prong]]
 
@@ -458,26 +488,28 @@ DeepReportUtilize(m, s) ==
       [] St[s].kind = "O" ->
             LET mh == FireReport(m, s, "utility")
                 ms == WideSumO(mh, s, 1, RZero, "utilize")
-            IN [ms EXCEPT !.rv = [u |-> RMul(UtilOf(m, s), RDivI(ms.rv, St[s].width)), p |-> St[s].prong]]
+                ml == Log(ms, <<"ut", s, 0, RDivI(ms.rv, St[s].width)>>)
+            IN [ml EXCEPT !.rv = [u |-> RMul(UtilOf(m, s), RDivI(ms.rv, St[s].width)), p |-> St[s].prong]]
       [] St[s].kind = "C" ->
             LET c  == St[s].compo
                 mh == FireReport(m, s, "utility")
                 ms == WideBest(mh, s, 1, [u |-> RZero, p |-> 0], "utilize")
                 b  == ms.rv
-            IN [ms EXCEPT !.req[c] = b.p, !.rv = [u |-> RMul(UtilOf(m, s), b.u), p |-> St[s].prong]]
+            IN [Log(ms, <<"ut", s, b.p, b.u>>) EXCEPT !.req[c] = b.p, !.rv = [u |-> RMul(UtilOf(m, s), b.u), p |-> St[s].prong]]
 
 DeepReportRandomize(m, s) ==            \* m.rv = utility
     CASE St[s].kind = "S" -> [FireReport(m, s, "utility") EXCEPT !.rv = UtilOf(m, s)]
       [] St[s].kind = "O" ->
             LET mh == FireReport(m, s, "utility")
                 ms == WideSumO(mh, s, 1, RZero, "randomize")
-            IN [ms EXCEPT !.rv = RMul(UtilOf(m, s), RDivI(ms.rv, St[s].width))]
+                ml == Log(ms, <<"rn", s, 0, RDivI(ms.rv, St[s].width)>>)
+            IN [ml EXCEPT !.rv = RMul(UtilOf(m, s), RDivI(ms.rv, St[s].width))]
       [] St[s].kind = "C" ->
             LET c  == St[s].compo
                 mh == FireReport(m, s, "utility")
                 mr == WideRanks(mh, s, 1, <<>>)
                 mu == WideUtils(mr, s, 1, mr.rv.ranks, mr.rv.top, <<>>, "randomize")
-                mx == ResolveRandom(mu, mu.rv.utils, mu.rv.sum, mr.rv.ranks, mr.rv.top)
+                mx == ResolveRandom(mu, s, mu.rv.utils, mu.rv.sum, mr.rv.ranks, mr.rv.top)
             IN [mx EXCEPT !.req[c] = mx.rv, !.rv = RMul(UtilOf(m, s), mu.rv.utils[mx.rv])]
 
 \* ---- requests ---------------------------------------------------------------------------
@@ -493,16 +525,16 @@ DeepRequestChange(m, s, rq) ==
                     LET r == IF m0.res[c] # 0 THEN m0.res[c] ELSE 1 IN
                     DeepRequestChange([m0 EXCEPT !.req[c] = r], Kid(s, r), rq)
               [] sg = "Selectable" ->
-                    LET m1 == FireReport(m0, s, "select")
-                        r  == SelectOf(m0, s)
+                    LET r  == SelectOf(m0, s)
+                        m1 == Log(FireReport(m0, s, "select"), <<"sel", s, r>>)
                     IN DeepRequestChange([m1 EXCEPT !.req[c] = r], Kid(s, r), rq)
               [] sg = "Utilitarian" ->
                     LET ms == WideBest(m0, s, 1, [u |-> RZero, p |-> 0], "change")
-                    IN [ms EXCEPT !.req[c] = ms.rv.p]
+                    IN [Log(ms, <<"ut", s, ms.rv.p, ms.rv.u>>) EXCEPT !.req[c] = ms.rv.p]
               [] sg = "Random" ->
                     LET mr == WideRanks(m0, s, 1, <<>>)
                         mu == WideUtils(mr, s, 1, mr.rv.ranks, mr.rv.top, <<>>, "change")
-                        mx == ResolveRandom(mu, mu.rv.utils, mu.rv.sum, mr.rv.ranks, mr.rv.top)
+                        mx == ResolveRandom(mu, s, mu.rv.utils, mu.rv.sum, mr.rv.ranks, mr.rv.top)
                     IN [mx EXCEPT !.req[c] = mx.rv]
 
 DeepRequestRestart(m, s, rq) ==
@@ -526,8 +558,8 @@ DeepRequestSelect(m, s, rq) ==
       [] St[s].kind = "O" -> WideAll(m0, s, rq, "select", 1)
       [] St[s].kind = "C" ->
             LET c  == St[s].compo
-                m1 == FireReport(m0, s, "select")
                 r  == SelectOf(m0, s)
+                m1 == Log(FireReport(m0, s, "select"), <<"sel", s, r>>)
             IN DeepRequestSelect([m1 EXCEPT !.req[c] = r], Kid(s, r), rq)
 
 DeepRequestUtilize(m, s, rq) ==
@@ -536,7 +568,7 @@ DeepRequestUtilize(m, s, rq) ==
       [] St[s].kind = "O" -> WideAll(m0, s, rq, "utilize", 1)
       [] St[s].kind = "C" ->
             LET ms == WideBest(m0, s, 1, [u |-> RZero, p |-> 0], "utilize")
-            IN [ms EXCEPT !.req[St[s].compo] = ms.rv.p]
+            IN [Log(ms, <<"ut", s, ms.rv.p, ms.rv.u>>) EXCEPT !.req[St[s].compo] = ms.rv.p]
 
 DeepRequestRandomize(m, s, rq) ==
     LET m0 == Pin(m, s, rq.i) IN
@@ -545,7 +577,7 @@ DeepRequestRandomize(m, s, rq) ==
       [] St[s].kind = "C" ->
             LET mr == WideRanks(m0, s, 1, <<>>)
                 mu == WideUtils(mr, s, 1, mr.rv.ranks, mr.rv.top, <<>>, "randomize")
-                mx == ResolveRandom(mu, mu.rv.utils, mu.rv.sum, mr.rv.ranks, mr.rv.top)
+                mx == ResolveRandom(mu, s, mu.rv.utils, mu.rv.sum, mr.rv.ranks, mr.rv.top)
             IN [mx EXCEPT !.req[St[s].compo] = mx.rv]
 
 \* R_::applyRequest
@@ -649,7 +681,7 @@ RECURSIVE DeepEnter(_, _), DeepExit(_, _), DeepReenter(_, _), DeepChangeToReques
 StateEnter(m, s)   == Fire(m, s, "enter")
 StateReenter(m, s) == Fire(m, s, "reenter")
 \* S_::deepExit clears the state's marks; the EmptyT specialisation does not
-StateExit(m, s)    == IF ~HasUser(s) THEN m
+StateExit(m, s)    == IF ~HasUser(s) THEN Fire(m, s, "exit")
                       ELSE LET m1 == Fire(m, s, "exit") IN [m1 EXCEPT !.succ = @ \ {s}, !.fail = @ \ {s}]
 
 WideLifeO(m, s, op, i) ==
@@ -904,9 +936,10 @@ StateStatus(m, s) == IF s \in m.fail THEN [r |-> 2, ot |-> FALSE]
 
 \* planSucceeded / planFailed : user override, or the default of A_<> (control.succeed() / control.fail())
 FirePlan(m, s, me) ==
-    IF ~HasUser(s) THEN m                                   \* EmptyT specialisation: wrapPlan* do nothing
-    ELSE IF s \notin Cfg.defplan THEN Fire1(m, s, me)        \* no injected handlers for plan callbacks
-    ELSE LET m1 == ApplyOp([m EXCEPT !.org = s], me, <<IF me = "planSucceeded" THEN "succeed" ELSE "fail", s>>)
+    LET m0 == LogMethod(m, s, me) IN
+    IF ~HasUser(s) THEN m0                                  \* EmptyT specialisation: wrapPlan* do nothing
+    ELSE IF Overridden(s, me) THEN Fire1(m0, s, me)         \* no injected handlers for plan callbacks
+    ELSE LET m1 == ApplyOp([m0 EXCEPT !.org = s], me, <<IF me = "planSucceeded" THEN "succeed" ELSE "fail", s>>)
          IN [m1 EXCEPT !.org = m.org]
 
 KeepNot(seq, removed) ==
@@ -918,7 +951,7 @@ KeepNot(seq, removed) ==
 UpdatePlan(m, head, sub) ==
     LET r == m.rid IN
     IF sub.r = 2 THEN
-        LET m2 == FirePlan([m EXCEPT !.ts.r = 2], head, "planFailed")
+        LET m2 == FirePlan(Log([m EXCEPT !.ts.r = 2], <<"ps", m.rs, "failed">>), head, "planFailed")
         IN [m2 EXCEPT !.rv = [r |-> m2.ts.r, ot |-> FALSE]]
     ELSE IF sub.r = 1 THEN
         IF Len(m.plans[r]) > 0 THEN
@@ -940,7 +973,7 @@ UpdatePlan(m, head, sub) ==
                          ELSE Loop(mm, i + 1, removed, deferred)
             IN Loop(m, 1, {}, {})
         ELSE
-            LET m2 == FirePlan([m EXCEPT !.ts.r = 1], head, "planSucceeded")
+            LET m2 == FirePlan(Log([m EXCEPT !.ts.r = 1], <<"ps", m.rs, "succeeded">>), head, "planSucceeded")
             IN [m2 EXCEPT !.rv = [r |-> m2.ts.r, ot |-> FALSE]]
     ELSE [m EXCEPT !.rv = TSNone]
 
@@ -1083,7 +1116,7 @@ ReplayEnter(m, list) ==
 (* `sc` the script for this call.                                          *)
 
 BeginCall(m, sc) ==
-    [NewControl(m) EXCEPT !.notes = {}, !.ev = <<>>, !.draws = 0, !.plog = <<>>, !.rounds = <<>>, !.over = 0, !.ok = TRUE, !.rv = TSNone,
+    [NewControl(m) EXCEPT !.notes = {}, !.ev = <<>>, !.draws = 0, !.plog = <<>>, !.log = <<>>, !.rounds = <<>>, !.over = 0, !.ok = TRUE, !.rv = TSNone,
                           !.pend = <<>>, !.cur = <<>>, !.sc = sc,
                           !.oa = ActiveMask(m), !.osub = SubList(m)]
 
@@ -1112,13 +1145,18 @@ ApiQuery(m, sc) == DeepQuery(BeginCall(m, sc), 1)
 \* R_::changeTo & co : origin INVALID_STATE_ID
 ApiQueue(m, k, d, p, sc) ==
     LET m0 == BeginCall(m, sc) IN
-    IF Len(m0.q) >= QueueCapacity THEN [m0 EXCEPT !.over = @ + 1]
-    ELSE [m0 EXCEPT !.q = Append(@, <<0, d, k, p>>)]
+    \* R_::changeTo & co report the request (origin INVALID_STATE_ID) whether or not the queue had room
+    Log(IF Len(m0.q) >= QueueCapacity THEN [m0 EXCEPT !.over = @ + 1]
+        ELSE [m0 EXCEPT !.q = Append(@, <<0, d, k, p>>)], <<"t", 0, k, d>>)
 
 ApiImmediate(m, k, d, p, sc) == ProcessRequest(ApiQueue(m, k, d, p, sc))
 
-ApiSucceed(m, s, sc) == LET m0 == BeginCall(m, sc) IN IF s > 1 THEN [m0 EXCEPT !.succ = @ \cup {s}] ELSE m0
-ApiFail(m, s, sc)    == LET m0 == BeginCall(m, sc) IN IF s > 1 THEN [m0 EXCEPT !.fail = @ \cup {s}] ELSE m0
+\* R_::succeed / fail report the region as INVALID_REGION_ID (a Short, 255) converted to StateID: the id 256 here
+ExternalRegion == 256
+ApiSucceed(m, s, sc) == LET m0 == BeginCall(m, sc) IN
+                        IF s > 1 THEN Log([m0 EXCEPT !.succ = @ \cup {s}], <<"ts", ExternalRegion, s, "succeeded">>) ELSE m0
+ApiFail(m, s, sc)    == LET m0 == BeginCall(m, sc) IN
+                        IF s > 1 THEN Log([m0 EXCEPT !.fail = @ \cup {s}], <<"ts", ExternalRegion, s, "failed">>) ELSE m0
 
 ApiPlanAppend(m, r, o, d, k, p, sc) == ApplyOp(BeginCall(m, sc), "update", <<"plan_append", r, o, d, k, p>>)
 ApiPlanClear(m, r, sc)              == ApplyOp(BeginCall(m, sc), "update", <<"plan_clear", r>>)
@@ -1140,8 +1178,9 @@ Step(m, a, sc) ==
     CASE a[1] = "enter"   -> ApiEnter(m, sc)
       [] a[1] = "exit"    -> ApiExit(m, sc)
       [] a[1] = "del"     -> IF On(m) /\ ~Cfg.manual THEN ApiExit(m, sc) ELSE BeginCall(m, sc)
-      [] a[1] = "new"     -> LET b == [Blank EXCEPT !.dev = m.dev] IN
+      [] a[1] = "new"     -> LET b == [Blank EXCEPT !.dev = m.dev, !.lg = (Len(a) > 1 /\ a[2] = 1)] IN
                              IF Cfg.manual THEN BeginCall(b, sc) ELSE ApiEnter(b, sc)
+      [] a[1] = "logger"  -> [BeginCall(m, sc) EXCEPT !.lg = (a[2] = 1)]      \* attachLogger(&logger / nullptr)
       [] a[1] = "reset"   -> ApiReset(m, sc)
       [] a[1] = "update"  -> ApiUpdate(m, sc)
       [] a[1] = "react"   -> ApiReact(m, sc)
